@@ -11,7 +11,8 @@
      fresh_variable_name(v, text, renaming): the first of v_0, v_1, ... that is neither a substring of text nor a key
         nor a value of renaming.  "substring of the text" = "substring of one of the tokens printed in it" (see ptok_pre below).
    The second renaming walks the result of the first one, so the functions are defined by recursion on a fuel (the
-   nesting depth bounds it); running out of fuel is Err EFuel.  Definitions only. *)
+   nesting depth bounds it); running out of fuel is Err EFuel - impossible for fresh_name and, up to nesting depth
+   alpha_fuel, for the whole renaming (Proofs.C18_AlphaTotal).  Definitions only. *)
 From Coq Require Import List String Bool Arith DecimalString.
 From Verif Require Import Base.Result Base.Str Base.PyDict Model.Domain Model.ChangeSignature.
 Import ListNotations.
